@@ -7,9 +7,10 @@ import gen
 import vlib
 
 MANIFEST = {
-    "text": "Coq theorems over the VM model (main loop and the four bulk-copy loops + return-data copy inside opcode bodies), for every program, configuration and folding function: a never-stopping watchdog influences nothing but the poll counter (machines differing only in the polling interval stay equal in all states and errors); once the answer stream has turned to stop, the next main-loop poll ends the run at once and comes within one polling interval of iterations; iterations <= polls * interval along every run; opcode bodies never un-make polls. The eleven polled loops of all stages are inventoried from the Rust source on every run (counter, interval binding, stop branch, and that no `continue`/`break` lies between the poll and the counter bump, so the counter advances on EVERY iteration); for that loop scheme (PolledLoop.v) Coq proves, for every item list, body, interval and counter: never told to stop => the plain fold's result, polls = the poll points; a watchdog that has turned to stop ends the loop at the next poll point with exactly one more poll; n iterations make between n div k and n div k + 1 polls. The later stages' behaviour is searched: the whole analysis is stopped at EVERY poll index k of small contracts (stratified on larger ones) and intervals 1..1000, checking stopped-by-watchdog error, no layout, bounded further polls, and equality with the unmonitored result when never stopped; per-stage poll counts are compared with independent work measures.",
-    "note": "Trusted: Coq kernel; translator T1/T9/T7; harness CountingWatchdog. The type-checker stages' polling is decided by the "
-            "source inventory + exhaustive stop-at-k search, not by a theorem (their loops are not modelled): partial for those stages.",
+    "text": "Coq theorems over the VM model (main loop and the four bulk-copy loops + return-data copy inside opcode bodies), for every program, configuration and folding function: a never-stopping watchdog influences nothing but the poll counter (machines differing only in the polling interval stay equal in all states and errors); once the answer stream has turned to stop, the next main-loop poll ends the run at once and comes within one polling interval of iterations; iterations <= polls * interval along every run; opcode bodies never un-make polls. The eleven polled loops of all stages are inventoried from the Rust source on every run (counter, interval binding, stop branch, and that no `continue`/`break` lies between the poll and the counter bump, so the counter advances on EVERY iteration); for that loop scheme (PolledLoop.v) Coq proves, for every item list, body, interval and counter: never told to stop => the plain fold's result, polls = the poll points; a watchdog that has turned to stop ends the loop at the next poll point with exactly one more poll; n iterations make between n div k and n div k + 1 polls. For the WHOLE analysis the composed model (coq/Pipeline.v: every stage's loop is an instance of that scheme, unification's rounds wrapped without touching Unify.v) carries the end-to-end theorems, for every program, configuration, iteration-order mode and fuel: pipeline_never_stop_interval_irrelevant (never told to stop => the result does not depend on the interval), pipeline_stop_is_error (more polls made than the stop index => the result is the StoppedByWatchdog error, never a layout from partial work), pipeline_stops_within_bound (at most poll_every + 1 polls after the turn); the model is tied to the code by stopping the real analysis at every poll index of small programs (intervals 1, 3, 7, 100) and comparing outcome, stage reached and polls made inside Coq. The later stages' behaviour is also searched directly: the whole analysis is stopped at EVERY poll index k of small contracts (stratified on larger ones) and intervals 1..1000, checking stopped-by-watchdog error, no layout, bounded further polls, and equality with the unmonitored result when never stopped; per-stage poll counts are compared with independent work measures.",
+    "note": "Trusted: Coq kernel; translator T1/T9/T7; harness CountingWatchdog. The type-checker stages' polling is now a theorem "
+            "about the composed model (all five loops modelled as PolledLoop instances); what ties that model to the code is the "
+            "source inventory + the stop-at-k correspondence (differential, not a proof).",
     "technique": "Coq proof (relational invariance under the polling interval, poll accounting invariant, stop-within-interval by "
                  "induction) on the VM model; source inventory of polled loops; exhaustive stop-at-every-poll search on the implementation",
 }
@@ -186,5 +187,12 @@ def check(ctx):
                              "stage_in_which_the_stop_landed": dict(stopped_stage),
                              "exhaustive": True,
                              "exhaustive_note": "every poll index 0..total+1 for the small contracts; stratified sample for the large ones"})
+    # the composed model of the whole analysis with the watchdog in EVERY stage: end-to-end theorems + stop-at-every-poll
+    # correspondence (outcome, stage reached, polls made) + the C13 predicates on the implementation's own output
+    import p_pipeline
+    p_pipeline.suite(ctx, translate=False, codes={13, 14}, cov_key="whole_pipeline_model",
+                     only=r"^(pipeline_never_stop|pipeline_stop_is|pipeline_stops_within|pipeline_tc_plain_or_stop|"
+                          r"pipeline_polled_loops|pipeline_unify_wrapper|pipeline_glue|pipeline_rule_order)",
+                     part=(0, 2), focus="watchdog")
     return vlib.finish(ctx, rule="(program, interval, stop index k) triples; non-trivial = the watchdog actually answered stop during "
                        "the run (polls made > k)", samples=[c.hex()[:80] for c in (small + big)[:3]])
